@@ -2,9 +2,16 @@
 //!
 //! The REAL `CardanoDatabaseClient::download_unpack` (built with the public `ClientBuilder`, real
 //! `HttpFileDownloader` + tar/zstd/gzip unpacker, real `AncillaryVerifier` configured with a harness-generated
-//! ancillary verification key) is driven against mirrors that are plain directories referenced by `file://`
-//! locations. Every archive is written by the harness with its own raw tar writer (so that it can also emit
-//! absolute / `..` paths, symlinks, hardlinks, GNU long names, truncated streams).
+//! ancillary verification key, wrapped in the same `RetryDownloader` as the default stack but without pauses) is driven
+//! against mirrors that are plain directories referenced by `file://` locations (a few per cent of the cases serve
+//! the same directories over a loopback HTTP server to exercise the streaming branch). Every archive is written by
+//! the harness with its own raw tar writer (so that it can also emit absolute / `..` paths, symlinks, hardlinks,
+//! GNU long names, truncated streams).
+//!
+//! Sections: `honest` (positive control over ranges/options/pre-existing files), `archives` (out-of-policy entries
+//! in immutable and ancillary archives, manifest alterations), `faults` (missing location, corrupt / truncated
+//! archive, blocked final move, second mirror) and `abort-inflight` (FIFO-backed mirrors: an immutable download fails
+//! while the ancillary download is provably in flight). Findings of the unchanged tree have dedicated witnesses.
 //!
 //! Oracle (computed from the harness' own bookkeeping, never from the client):
 //!   after ∖ before ⊆  immutable trio files of the requested range
